@@ -35,7 +35,10 @@ def site_forms(arch, rng, per_mnemonic):
     return sites
 
 def variants(stmt_with_sym, v, chained):
-    if chained:
+    if chained == 2:
+        # a diamond: vv2 is reached twice through vv3 and vv4 (and twice inside vv4)
+        defs = "@defl vv1, vv3 + vv4\n@defl vv3, vv2\n@defl vv4, vv2 - vv2\n@defn vv2, %d\n" % v
+    elif chained:
         defs = "@defl vv1, vv2 + 1\n@defn vv2, %d\n" % (v - 1)
     else:
         defs = "@defn vv1, %d\n" % v
@@ -67,9 +70,10 @@ def run(ck):
                 for ch in (False, True):
                     triples.append((arch, stmt, v, ch) + variants(stmt, v, ch))
     for stmt in ["@db vv1", "@db 1, vv1, 2", "@dw vv1", "@dw vv1, vv1", "@ds 3, vv1", "@assert vv1", "@assert vv1 - 7, \"m\"",
-                 "@db vv1 + 1", "@dw vv1 * 2", "@db < vv1", "@db > vv1"]:
+                 "@db vv1 + 1", "@dw vv1 * 2", "@db < vv1", "@db > vv1", "@dw vv1 + vv1", "@dw ( vv1 << 8 ) | vv1",
+                 "@db vv1 ^ vv1", "@ds 2, vv1 - vv1 + 3", "@assert vv1 == vv1"]:
         for v in VALUES + [7, 8]:
-            for ch in (False, True):
+            for ch in (False, True, 2):
                 triples.append(("z80", stmt, v, ch) + variants(stmt, v, ch))
     # the historical corpus
     triples.append(("sm83", " ldh a, (vv1)", 0xFF80, False) + variants(" ldh a, (vv1)", 0xFF80, False))
@@ -129,7 +133,7 @@ def run(ck):
         want = expected_after(t, before)
         if after.canon() != want:
             what = "%s: `%s` with vv1 = %d%s: defined before -> %s, defined after -> %s" % (
-                arch, stmt.strip(), v, " (chained)" if ch else "", before.canon() if want == before.canon() else "(expected) " + want,
+                arch, stmt.strip(), v, (" (chained)" if ch == 1 else " (diamond chain)" if ch else ""), before.canon() if want == before.canon() else "(expected) " + want,
                 after.canon() + ((" " + (after.msg or "").replace("\n", " ")[-90:]) if not after.ok else ""))
             if arch == "sm83" and stmt.strip().startswith("ldh") and 0xFF00 <= v <= 0xFFFF and before.ok and after.kind == "ERR":
                 ck.known_hit("sm83-ldh-high-page-deferred", "`%s` / `@defn vv1, $%x`" % (stmt.strip(), v))
